@@ -491,3 +491,26 @@ func zzH_C17w() {
 	c.Close()
 	vReach("end")
 }
+
+// zzH_C16u: Update is atomic with respect to the detector: a probe of an OLD target that completes
+// while Update(new) is in progress (lock granularity, one preemption) must not leave the old target
+// routable once Update has returned. One old target, one new target, ticks off.
+func zzH_C16u() {
+	rt := &zzRT{up: map[string]bool{"a": true, "b": true}, slowPing: true}
+	c := NewClient(nil)
+	c.Transport = rt
+	vSetClockStep(1)
+	vSetTimerBudget(2) // a caller that has to wait is released by a detector tick (or times out)
+	c.Update("a")
+	vYield() // the first detector round starts: the probe of a is in flight (it takes time)
+	c.Update("b")
+	n := len(rt.calls)
+	err := c.Call("S.M", nil, nil)
+	if len(rt.calls) > n {
+		vAssert(rt.calls[n] == "b", "routed-to-current-target")
+	} else {
+		vAssert(err == ErrTimeout || err == ErrDial, "unrouted-call-fails-with-timeout")
+	}
+	c.Close()
+	vReach("end")
+}
